@@ -119,6 +119,7 @@ func runVec(c *hx.Ctx, v vec, reps int) {
 func Run(c *hx.Ctx) {
 	runWC(c)
 	runWRR(c)
+	runCWRR(c)
 }
 
 // ---- weighted round robin (EDF scheduler): pick sequences of the real balancer over all-healthy hosts
